@@ -208,6 +208,28 @@ func runC05(r *ev.Run) {
 				got, err := applyHybridQuery(sut.idx.NewSearch(), q).Execute()
 				before := r.Counter("probes:exact")
 				checkHybridAnswer(rep, r, h, q, got, err)
+				if err == nil && rng.IntN(5) == 0 && q.K > len(h.docs) {
+					// the same search object executed again: the same documents (k beyond the corpus, so no k-th place
+					// tie can be broken differently the second time)
+					sb := applyHybridQuery(sut.idx.NewSearch(), q)
+					a1, e1 := sb.Execute()
+					a2, e2 := sb.Execute()
+					if e1 != nil || e2 != nil || len(a1) != len(a2) {
+						rep("hybrid.reexecute-differs", fmt.Sprintf("%s: one search object executed twice: %d results / %v, then %d / %v", q, len(a1), e1, len(a2), e2))
+					} else {
+						s1 := map[uint32]bool{}
+						for _, x := range a1 {
+							s1[x.ID] = true
+						}
+						for _, x := range a2 {
+							if !s1[x.ID] {
+								rep("hybrid.reexecute-differs", fmt.Sprintf("%s: the second Execute of one search object returns id %d, the first did not", q, x.ID))
+								break
+							}
+						}
+					}
+					r.Count("probes:re-executed-search-object", 1)
+				}
 				if err == nil && rng.IntN(6) == 0 {
 					// autocut (WithCutoff) cuts each modality's own list before fusion, so the fused answer is not a
 					// positional prefix; what must hold: no error or panic for any cutoff value, never more results
